@@ -7,7 +7,7 @@ validated on every check run: the same executor, run on concrete inputs, must pr
 
 Faithful on purpose (these are what the emitted code relies on):
   * the call stack is ONE list of frames shared by all activations; `store` searches block frames down to the function frame,
-    `load` searches ALL frames (then the captured variables), `store_fast`/`load_fast` are frame-local / function-local;
+    `load` searches the running function, then the captured variables, then ALL frames, `store_fast`/`load_fast` are frame-local / function-local;
   * special_scopes is a counter per activation that jmp_pop does not decrement (as in Function::run);
   * the operand stack survives jumps; bin_op / if_stmt / while_loop / call clear it; fast_rev2 / store / equ demand exact sizes;
   * array views (`xs[i]`) are pointers until an instruction dereferences them."""
@@ -117,9 +117,12 @@ class Machine:
             return t
 
         def load_var(nm):
-            c = self.find_name(nm)
+            # Ctx::load_variable (lexical since fix de6b620): the running function, then the captured variables, then the callers
+            c = self.find_name_in_function(nm)
             if c is None and callback is not None:
                 c = callback.get(nm)
+            if c is None:
+                c = self.find_name(nm)
             return c
 
         while ip < n:
@@ -376,7 +379,7 @@ class Machine:
                     ops[-1] = res
                     ip = nxt
                     continue
-                c = self.find_name(a[1])
+                c = load_var(a[1])
                 if c is None:
                     raise Fail("bin_op_assign", a[1] + " has not been mapped")
                 if not ops:
